@@ -131,6 +131,11 @@ func (c *Ctx) FailSig(sig, format string, a ...any) {
 	panic(failSentinel{})
 }
 
+// Fresh reports whether the execution has left its replayed prefix: everything before was
+// executed (and checked) identically by the parent execution, so harnesses may skip
+// re-checking oracles until Fresh is true. Always true in replay mode.
+func (c *Ctx) Fresh() bool { return c.Replay || len(c.trail) >= len(c.prefix) }
+
 // Used is the deviation cost spent so far.
 func (c *Ctx) Used() int { return c.used }
 
